@@ -331,6 +331,21 @@ def kind_of(v):
     return v
 
 
+def eval_expect(e, out):
+    import re
+    if e['type'] == 'contains':
+        return e['text'] in out
+    if e['type'] == 'always':
+        return True
+    if e['type'] == 'twophase':
+        mo = re.search(r'DEPS=(\S*)', out)
+        got = sorted(x for x in (mo.group(1).split(';') if mo and mo.group(1) else []) if x.startswith('%d>' % e['T']))
+        if e['finish']:
+            return got != sorted(e['want'])
+        return any(not any(g.startswith(k + ':') for g in got) for k in e['old_keys'])
+    return False
+
+
 def make_replay(chk, rep, scn=None):
     def replay(c):
         if c.get('kind') == 'dbstate':
@@ -342,12 +357,13 @@ def make_replay(chk, rep, scn=None):
             m = re.search(r'VERDICT=(\S+)', payload[0])
             native = m.group(1) if m else '?'
             c['native'] = payload[0]
-            if 'expect_rows' in c:
-                return c['expect_rows'](payload[0]), payload[0]
+            if 'expect' in c:
+                return eval_expect(c['expect'], payload[0]), payload[0]
             return (native == c['real'] and native != c['ref']), 'native verdict %s (engine %s, reference %s)' % (native, c['real'], c['ref'])
         if c.get('kind') == 'scenario' and scn is not None:
             rcx, out = scn.run(c['files'], c['script'])
             c['scenario_output'] = out[-2000:]
-            return c['violated'](out), out[-600:].replace('\n', ' | ')
+            from specs import orchestration
+            return orchestration.PREDICATES[c['violated']](out), out[-600:].replace('\n', ' | ')
         return False, 'no replay for kind %r' % c.get('kind')
     return replay
